@@ -237,7 +237,7 @@ for k, t in R11TXT.items():
 
 R12TXT = {
  "C01": " Twelfth round: join-accepts whose channel CFList holds the ends of the 24-bit frequency code range (1, 11999999, 12000000, 15000000, 2^24-1).",
- "C02": " Twelfth round: the many-keys history ends with 26 kinds of key pairs that agree under a cheap key fingerprint (32-bit FNV / CRC / Adler / truncated MD5, SHA-1, SHA-256 / multiplicative / XOR / sum, found by exhaustive birthday search; full 64-bit FNV-1, FNV-1a, MD5-8, SHA-256-8 found by cycle finding), each pair used a, b, a, b.",
+ "C02": " Twelfth round: the many-keys history ends with 27 kinds of key pairs that agree under a cheap key fingerprint (32-bit FNV / CRC / Adler / truncated MD5, SHA-1, SHA-256 / multiplicative / XOR / sum, found by exhaustive birthday search; full 64-bit FNV-1, FNV-1a, MD5-8, SHA-1-8, SHA-256-8 found by cycle finding), each pair used a, b, a, b.",
  "C03": " Twelfth round: the many-keys history ends with the fingerprint-colliding key pairs.",
  "C04": " Twelfth round: the many-keys history ends with the fingerprint-colliding key pairs; CFList channels at the ends of the 24-bit code range.",
  "C05": " Twelfth round: every MAC command, each field over its complete in-width domain (frequencies: notable and single-bit codes) at 3 base tuples, followed by a payload-less command, through the complete exchange in plain FOpts, encrypted FOpts and the encrypted port-0 payload; fingerprint-colliding keys in the many-sessions history.",
